@@ -33,6 +33,10 @@ CHECKS = [
      "text": "Bounded symbolic model checking of suppression handling: rule-name matching for every rule id x spelling kind x letter-case mask x entry point; directive scope arithmetic of the real IgnoreDirectiveParser with the violation line a solver integer (same-line / next-line / block / file forms, both comment styles, both tool words, naming own or another rule); and every linter's trigger file through the real Orchestrator with each directive form inserted (named rule suppressed exactly, other-rule and out-of-scope directives change nothing).",
      "note": "Trusted: z3, proxy ints, the documented scope table, the trigger catalogue. Directives inside string literals / block comments and per-linter ignore path patterns are outside the claim (repository ignore lists are covered in C05/C14). Five defects repaired by fix: commits.",
      "technique": TECH},
+    {"property_id": "C18", "design_ref": "DESIGN.md §4 C18",
+     "text": "Bounded model checking of the real FilePlacementLinter on rule sets explored by the solver-managed choice tree: paths x rule-set shapes (no rules, 1-2 directory rules incl. nested / trailing-slash / root keys, global_deny, global_patterns, combinations) x deny/allow list shapes over a regex table x config wrapping x absolute/relative target, against the decision table of the statement (most specific covering directory rule, deny before allow, globals only for uncovered files); invalid regexes in every position must be rejected.",
+     "note": "Nothing stays symbolic here (string matching through re): the exploration is exhaustive over the stated finite space, managed by the engine's decision tree. Trusted: Python re, the path/pattern tables. Equally specific covering keys are excluded (unspecified). Two defects repaired by fix: commits.",
+     "technique": TECH},
 ]
 
 DONE = {int(c['property_id'][1:]) for c in CHECKS} | {19}
